@@ -23,7 +23,7 @@ from harness import c10_props as PR
 LOC_NOTES = []      # sentences of the locators (a private name was gone, a fallback through public behaviour was used)
 
 STREAMS = ['dispatch-random', 'dispatch-lookup-grid', 'dispatch-deferred', 'dispatch-builtin',
-           'dispatch-unexport-deferred', 'dispatch-properties']
+           'dispatch-unexport-deferred', 'dispatch-properties', 'dispatch-shared-base']
 THEOREMS = [
     'at_most_one_reply', 'exactly_one_if_expected', 'none_if_no_reply_and_dispatched',
     'reply_addressing', 'runs_iff', 'lookup_failure_reply', 'unbound_reply', 'asks_for_caller_iff',
@@ -522,7 +522,8 @@ class Built:
         self.ifaces = []
         for i in decls['ifaces']:
             members = [interface.Method(m[0], m[1], m[2]) for m in i['methods']]
-            members += [interface.Property(pn, ps, writeable=True) for pn, ps in i.get('props', [])]
+            members += [interface.Property(pr[0], pr[1], readable=(len(pr) < 3 or 'r' in pr[2]), writeable=True)
+                        for pr in i.get('props', [])]
             self.ifaces.append(interface.DBusInterface(i['name'], *members, noRegister=True))
         self.classes = []
         for k, c in enumerate(decls['classes']):
@@ -537,6 +538,16 @@ class Built:
             ns = {}
             if c['ifaces'] is not None:
                 ns['dbusInterfaces'] = [self.ifaces[j] for j in c['ifaces']]
+            # DBusProperty attributes: a plain name is a property of PROP_IFACE named explicitly; a dict
+            # {'name', 'iface'} may leave the interface open (`DBusProperty(name)`: bound, at the first walk of the
+            # class caches, to whichever interface of the CONCRETE class in use lists the property)
+            props = [pn if isinstance(pn, dict) else {'name': pn, 'iface': PROP_IFACE} for pn in c.get('props', [])]
+
+            def add_props():
+                for pd in props:
+                    ns[pd['name']] = objects.DBusProperty(pd['name'], pd['iface'])
+            if c.get('props_first'):
+                add_props()         # class body order: the properties BEFORE the methods
             for a in c['attrs']:
                 ns[a['name']] = make_func(self.rec, a['name'], a['fid'], a['deco'], a['wants'], a.get('arity'), a.get('shape'))
             if c.get('truth') == 'len0':
@@ -548,24 +559,38 @@ class Built:
                     self.__dict__['_truth_n'] = self.__dict__.get('_truth_n', 0) + 1
                     return self.__dict__['_truth_n'] % 3 == 0
                 ns['__bool__'] = __bool__
-            for pn in c.get('props', []):
-                ns[pn] = objects.DBusProperty(pn, PROP_IFACE)
-
-                def __init__(self, path, _pn=pn):
+            if not c.get('props_first'):
+                add_props()
+            if props and c.get('assign_in_init', True):
+                def __init__(self, path, _pns=tuple(pd['name'] for pd in props)):
                     objects.DBusObject.__init__(self, path)
-                    setattr(self, _pn, 'initial')
+                    for _pn in _pns:
+                        setattr(self, _pn, 'initial')
                 ns['__init__'] = __init__
             self.classes.append(type('K%d' % k, tuple(bases) or (object,), ns))
         self.objects = []
         self.exported = {}
+        self.failed_exports = 0
         for o in decls['objects']:
             self.export(o)
         self.rec.log.clear()
 
     def export(self, o):
-        """`exportObject` of a fresh object described by {'path', 'cls', ['pval']}."""
-        obj = self.classes[o['cls']](o['path'])
-        self.handler.exportObject(obj)
+        """`exportObject` of a fresh object described by {'path', 'cls', ['pval']}.  Returns the object, or None
+        when creating / exporting it raised (a misdeclared class: the application logs that and carries on) - then
+        nothing is exported by this step; `self.failed_exports` counts them."""
+        try:
+            obj = self.classes[o['cls']](o['path'])
+            self.handler.exportObject(obj)
+        except Exception:       # noqa: whatever the library raises for a class it cannot use
+            self.failed_exports += 1
+            # what is visible at the path now is the handler's (and C16's) business: follow it
+            cur = L.exports_of(self.handler, LOC_NOTES).get(o['path'])
+            if cur is None:
+                self.exported.pop(o['path'], None)
+            else:
+                self.exported[o['path']] = cur
+            return None
         self.objects.append(obj)
         self.exported[o['path']] = obj
         if 'pval' in o and any('p' in vars(k) for k in type(obj).__mro__):     # (hasattr on the class would call the descriptor)
@@ -948,7 +973,11 @@ class Scenario:
                 self.do_resolve(k, op)
             elif op['op'] == 'export':
                 obj = self.built.export(op)
-                self.model_lines.append(' '.join(['opexport'] + Built.obj_tokens(op['path'], obj)))
+                if obj is None:
+                    # the export raised: no operation of the dispatcher (only the numbering of the history advances)
+                    self.model_lines.append('opfailed')
+                else:
+                    self.model_lines.append(' '.join(['opexport'] + Built.obj_tokens(op['path'], obj)))
                 self.impl_lines.append('none')
             else:
                 self.built.unexport(op['path'])
@@ -1423,6 +1452,93 @@ def gen_unexport_deferred(rng):
     return {'decls': decls, 'ops': ops}, fired_after
 
 
+def gen_shared_base(rng):
+    """A family of classes sharing a base class, used one after the other IN ONE PROCESS (the per-class caches of the
+    library live on the classes and persist across the exports of a scenario).  The base declares a DBusProperty whose
+    interface is left open (`DBusProperty('p')`), before or after its methods in the class body, and implements the
+    members of org.a (decorator style mostly).  One subclass is MISDECLARED: none of its interfaces lists `p`, so
+    creating / exporting an object of it raises (AttributeError from the library).  Its siblings are declared
+    correctly.  Histories: the misdeclared class is tried first, in between or not at all; then the good siblings are
+    exported and called - every first use of a class must be right whatever was tried before."""
+    n_m = rng.randrange(1, 4)
+    ms = [[m, rng.choice(SIGS), rng.choice(SIGS)] for m in rng.sample(MEMBERS, n_m)]
+    readable = rng.random() < 0.6
+    ifaces = [{'name': 'org.a', 'methods': ms},
+              {'name': PROP_IFACE, 'methods': [], 'props': [['p', 's', 'rw' if readable else 'w']]}]
+    if rng.random() < 0.4:
+        ifaces.append({'name': 'org.b', 'methods': [[rng.choice(MEMBERS), rng.choice(SIGS), rng.choice(SIGS)]]})
+    fid = [0]
+
+    def impls(idxs, share=0.9):
+        attrs, used = [], set()
+        for j in idxs:
+            for m in ifaces[j]['methods']:
+                if rng.random() > share:
+                    continue
+                if rng.random() < 0.75:
+                    name, deco = 'impl_%s_%d' % (m[0], j), [ifaces[j]['name'], m[0]]
+                else:
+                    name, deco = 'dbus_' + m[0], None
+                if name in used:
+                    continue
+                used.add(name)
+                fid[0] += 1
+                attrs.append({'name': name, 'fid': fid[0], 'deco': deco, 'wants': rng.random() < 0.4})
+        return attrs
+    with_b = list(range(2, len(ifaces)))
+    base = {'bases': ['DBusObject'], 'ifaces': None if rng.random() < 0.75 else [0], 'attrs': impls([0] + with_b),
+            'props': [{'name': 'p', 'iface': None}], 'props_first': rng.random() < 0.7,
+            # a write-only property is never read when the object is announced: it need not be assigned
+            'assign_in_init': readable or rng.random() < 0.5}
+    bad = {'bases': [0], 'ifaces': [0] + with_b, 'attrs': impls(with_b, 0.3)}
+    good = {'bases': [0], 'ifaces': rng.sample([0, 1] + with_b, 2 + len(with_b)), 'attrs': impls(with_b, 0.3)}
+    good2 = {'bases': [0], 'ifaces': [1, 0], 'attrs': []}
+    classes = [base, bad, good, good2]
+    decls = {'ifaces': ifaces, 'classes': classes, 'objects': []}
+    probe = Built(decls)
+    ops = []
+
+    def export(cls, path):
+        op = {'op': 'export', 'path': path, 'cls': cls}
+        probe.export(op)
+        ops.append(op)
+
+    def calls(path, n):
+        for _ in range(n):
+            j = rng.choice([0] * 3 + with_b)
+            m = rng.choice(ifaces[j]['methods'])
+            iface, member, sig_in = ifaces[j]['name'], m[0], m[1]
+            if rng.random() < 0.2:
+                iface = None
+            if rng.random() < 0.08:
+                member = rng.choice(MEMBERS)
+            if rng.random() < 0.08:
+                sig_in = rng.choice(SIGS)
+            op = {'op': 'call', 'path': path, 'iface': iface, 'member': member,
+                  'sig': sig_in if sig_in != '' else rng.choice([None, '']), 'body': repr(gen_value(rng, sig_in)),
+                  'sender': rng.choice([':1.7', ':1.42', None]), 'serial': rng.randrange(1, 2 ** 32),
+                  'expectReply': rng.random() < 0.8, 'autoStart': True, 'flag4': False}
+            exp = expected_of(probe, op)
+            op['outcome'] = gen_outcome(rng, exp.get('sig_out', rng.choice(SIGS)), deferred_ok=False)
+            ops.append(op)
+    order = rng.choice(['bad-first', 'bad-first', 'bad-first', 'good-first', 'no-bad'])
+    if order == 'bad-first':
+        export(1, rng.choice(['/a', '/c']))
+    export(2, '/a/b')
+    calls('/a/b', rng.randrange(1, 4))
+    if order == 'good-first' or rng.random() < 0.3:
+        export(1, rng.choice(['/a', '/a/b']))       # a failed export over an exported path leaves it alone
+        calls('/a/b', rng.randrange(1, 3))
+    if rng.random() < 0.6:
+        export(3, '/c/d/e')
+        calls('/c/d/e', rng.randrange(1, 3))
+    if rng.random() < 0.3:
+        ops.append({'op': 'unexport', 'path': '/a/b'})
+        probe.unexport('/a/b')
+        calls('/a/b', 1)
+    return {'decls': decls, 'ops': ops}
+
+
 GRID_DECLS = {
     'ifaces': [
         {'name': 'org.a', 'methods': [['one', 's', 's'], ['two', '', 'as'], ['x1', 'i', '']]},
@@ -1680,6 +1796,15 @@ def _run(ctx, rng):
     ncalls = PR.run_stream(ctx, 'dispatch-properties', [PR.gen_case(rng) for _ in range(n)])
     if not ncalls:
         raise RuntimeError('stream dispatch-properties made no call')
+    # classes that share a base class, one of them misdeclared (its export raises), in one process: the library's
+    # per-class caches persist across the exports of a scenario - every first use of a class must be right
+    n = ctx.scale(quick=160, thorough=2500)
+    specs = [gen_shared_base(rng) for _ in range(n)]
+    run_batch(ctx, 'dispatch-shared-base', specs)
+    nbad = sum(1 for sp in specs if sp['ops'] and sp['ops'][0]['op'] == 'export' and sp['ops'][0]['cls'] == 1)
+    ctx.stat('a misdeclared sibling class was tried before the good one (exercised)', nbad)
+    if not nbad:
+        raise RuntimeError('stream dispatch-shared-base tried no misdeclared class before a good sibling')
     # oracle only: exception texts with lone surrogates (not representable as Lean `Char`)
     n = ctx.scale(quick=150, thorough=1200)
     run_batch(ctx, 'oracle-hostile-text', [gen_scenario(rng, n_ops=4, hostile=True) for _ in range(n)],
